@@ -9,8 +9,10 @@
        still unmoved, cursor and skips over the nested bytes (`p_hdr`: a plain aligned 4-byte store, the bytes behind it are not
        zero at that moment);
      - array length and union tag are appended with add_aligned_u<N>.
-   The Python-level value conversions (`max(min(..))` saturation, two's complement of negative ints, struct.pack of floats) are
-   folded into `Wire.enc_prim`: the chunk handed to the Serializer is the specification's encoding of the field.
+   The chunk handed to the Serializer for a primitive field is a PARAMETER `lf` (the leaf): Codec/PyLeaf.v `py_leaf_bits` models
+   the Python-level conversions explicitly (`max(min(..))` saturation, two's complement by the support functions, struct.pack with
+   round-half-EVEN float16); with `lf := Wire.enc_prim` the walker hands over the specification's own encoding (used as the
+   intermediate step of the proof only).
    Buffers are bit lists; a fork is the same bit list at a later offset (C14: ser_fork_bytes_spec / ser_join_spec - a window on
    the same bytes). *)
 From Verif Require Import Wire.
@@ -23,6 +25,7 @@ Record pyprims : Type := {
 
 Section PyWalk.
   Variable Q : pyprims.
+  Variable lf : prim -> val -> res (list bool).
 
   Definition pres := res (list bool * nat).
 
@@ -32,7 +35,7 @@ Section PyWalk.
   Definition pw_prim (p : prim) (v : val) (buf : list bool) (off : nat) : pres :=
     match p, v with
     | PVoid w, VVoid => Ok (buf, off + w)                                  (* _ser_.skip_bits(w) *)
-    | _, _ => match enc_prim p v with Ok bits => p_set buf off bits | Err e => Err e end
+    | _, _ => match lf p v with Ok bits => p_set buf off bits | Err e => Err e end
     end.
 
   Section PList.
